@@ -292,17 +292,65 @@ theorem choose_max {rs : List VoteResp} (hw : AllInWindow rs) {r : VoteResp} (h 
 /-! ### the two acceptor handlers -/
 
 /-- an acceptor (data node) whose own log is newer than the proposed one refuses, and nothing changes -/
-theorem handleProposal_refuse_newer (n : Nat) (m : Member) (k host : Nat) (aof : AofId)
+theorem handleProposal_refuse_newer (n self : Nat) (m : Member) (k host : Nat) (aof : AofId)
     (hd : m.arbiter = 0) (hn : compareAofId m.ownAof aof > 0) :
-    handleProposal n m k host aof = (.reject, m) := by
+    handleProposal n self m k host aof = (.reject, m) := by
   unfold handleProposal classifyProposal
   simp [hd, hn]
 
-theorem handleProposal_ok {n : Nat} {m : Member} {k host : Nat} {aof : AofId} {old : Nat} {m' : Member}
-    (h : handleProposal n m k host aof = (.ok old, m')) :
-    m.latch = none ∧ m.pid < k ∧ m.cid < k ∧ old = m.pid ∧ m' = { m with pid := k } := by
+theorem scanMembers_not_ok (rs sts : List Nat) (vs : List AofId) (a : AofId) (r : PropRes)
+    (h : scanMembers rs sts vs a = some r) : r = .status ∨ r = .aofid := by
+  induction rs generalizing sts vs with
+  | nil => simp [scanMembers] at h
+  | cons x rs ih =>
+    cases sts with
+    | nil => simp [scanMembers] at h
+    | cons st sts =>
+      cases vs with
+      | nil => simp [scanMembers] at h
+      | cons v vs =>
+        simp only [scanMembers] at h
+        split at h
+        · left; injection h with h; exact h.symm
+        · split at h
+          · right; injection h with h; exact h.symm
+          · exact ih sts vs h
+
+/-- an entry with role LEADER that is online makes the member loop end with ERR_STATUS or, at an earlier entry, ERR_AOFID -/
+theorem scanMembers_leader (rs sts : List Nat) (vs : List AofId) (a : AofId) (j : Nat)
+    (hlen1 : rs.length = sts.length) (hlen2 : rs.length = vs.length) (hj : j < rs.length)
+    (hr : getN rs j = ROLE_LEADER) (hs : getN sts j = STATUS_ONLINE) :
+    scanMembers rs sts vs a = some .status ∨ scanMembers rs sts vs a = some .aofid := by
+  induction rs generalizing sts vs j with
+  | nil => simp at hj
+  | cons x rs ih =>
+    cases sts with
+    | nil => simp at hlen1
+    | cons st sts =>
+      cases vs with
+      | nil => simp at hlen2
+      | cons v vs =>
+        simp only [scanMembers]
+        split
+        · left; rfl
+        · split
+          · right; rfl
+          · rename_i hnl _
+            cases j with
+            | zero =>
+              simp only [getN] at hr hs
+              exfalso; apply hnl; simp [hr, hs]
+            | succ j =>
+              simp only [getN] at hr hs
+              exact ih sts vs j (by simpa using hlen1) (by simpa using hlen2) (by simpa using hj) hr hs
+
+theorem handleProposal_ok {n self : Nat} {m : Member} {k host : Nat} {aof : AofId} {old : Nat} {m' : Member}
+    (h : handleProposal n self m k host aof = (.ok old, m')) :
+    m.latch = none ∧ m.pid < k ∧ m.cid < k ∧ old = m.pid ∧ m' = { m with pid := k } ∧
+      getN m.roles self ≠ ROLE_LEADER ∧ scanMembers m.roles m.statuses m.views aof = none ∧
+      ¬ (m.arbiter = 0 ∧ compareAofId m.ownAof aof > 0) := by
   unfold handleProposal at h
-  cases hc : classifyProposal n m k host aof with
+  cases hc : classifyProposal n self m k host aof with
   | ok o =>
     rw [hc] at h
     simp only [Prod.mk.injEq, PropRes.ok.injEq] at h
@@ -310,34 +358,52 @@ theorem handleProposal_ok {n : Nat} {m : Member} {k host : Nat} {aof : AofId} {o
     unfold classifyProposal at hc
     split at hc
     · simp at hc
-    · split at hc
+    · rename_i hrej
+      split at hc
       · simp at hc
-      · split at hc
-        · simp at hc
-        · split at hc
+      · rename_i hrole
+        split at hc
+        · rename_i r hsc
+          rcases scanMembers_not_ok _ _ _ _ _ hsc with hr | hr <;> rw [hr] at hc <;> simp at hc
+        · rename_i hsc
+          split at hc
           · simp at hc
           · split at hc
             · simp at hc
-            · rename_i _ _ _ h4 h5
-              simp only [PropRes.ok.injEq] at hc
-              simp only [Bool.or_eq_true, decide_eq_true_eq, not_or, Nat.not_le, Option.isSome_iff_ne_none, ne_eq, Decidable.not_not] at h4
-              refine ⟨?_, h4.1, by omega, by omega, h2.symm⟩
-              cases hl : m.latch with
-              | none => rfl
-              | some x => rw [hl] at h4; simp at h4
+            · split at hc
+              · simp at hc
+              · split at hc
+                · simp at hc
+                · rename_i _ _ h4 h5
+                  simp only [PropRes.ok.injEq] at hc
+                  simp only [Bool.or_eq_true, decide_eq_true_eq, not_or, Nat.not_le, Option.isSome_iff_ne_none, ne_eq, Decidable.not_not] at h4
+                  refine ⟨?_, h4.1, by omega, by omega, h2.symm, ?_, hsc, ?_⟩
+                  · cases hl : m.latch with
+                    | none => rfl
+                    | some x => rw [hl] at h4; simp at h4
+                  · simpa using hrole
+                  · intro hh
+                    apply hrej
+                    simp [hh.1, hh.2]
   | reject => rw [hc] at h; simp at h
+  | role => rw [hc] at h; simp at h
+  | status => rw [hc] at h; simp at h
   | aofid => rw [hc] at h; simp at h
   | badHost => rw [hc] at h; simp at h
+  | offline => rw [hc] at h; simp at h
   | propId x => rw [hc] at h; simp at h
 
-theorem handleProposal_not_ok {n : Nat} {m : Member} {k host : Nat} {aof : AofId} {r : PropRes} {m' : Member}
-    (h : handleProposal n m k host aof = (r, m')) (hr : ∀ o, r ≠ .ok o) : m' = m := by
+theorem handleProposal_not_ok {n self : Nat} {m : Member} {k host : Nat} {aof : AofId} {r : PropRes} {m' : Member}
+    (h : handleProposal n self m k host aof = (r, m')) (hr : ∀ o, r ≠ .ok o) : m' = m := by
   unfold handleProposal at h
-  cases hc : classifyProposal n m k host aof with
+  cases hc : classifyProposal n self m k host aof with
   | ok o => rw [hc] at h; simp only [Prod.mk.injEq] at h; exact absurd h.1.symm (hr o)
   | reject => rw [hc] at h; simp only [Prod.mk.injEq] at h; exact h.2.symm
+  | role => rw [hc] at h; simp only [Prod.mk.injEq] at h; exact h.2.symm
+  | status => rw [hc] at h; simp only [Prod.mk.injEq] at h; exact h.2.symm
   | aofid => rw [hc] at h; simp only [Prod.mk.injEq] at h; exact h.2.symm
   | badHost => rw [hc] at h; simp only [Prod.mk.injEq] at h; exact h.2.symm
+  | offline => rw [hc] at h; simp only [Prod.mk.injEq] at h; exact h.2.symm
   | propId x => rw [hc] at h; simp only [Prod.mk.injEq] at h; exact h.2.symm
 
 theorem handleCommit_ok {n : Nat} {m : Member} {f k host : Nat} {m' : Member}
